@@ -4,11 +4,11 @@ package main
 
 import (
 	"fmt"
-	"go/ast"
 	"go/constant"
 	"go/token"
 	"go/types"
 	"sort"
+	"strconv"
 	"strings"
 
 	"golang.org/x/tools/go/ssa"
@@ -20,7 +20,71 @@ func init() { register("C17", checkC17) }
 // io.ReadFull, or of a thin own wrapper around it; buf is the buffer being filled.
 type readCall struct {
 	*ssa.Call
-	buf ssa.Value
+	buf  ssa.Value // the buffer filled, as the reading function sees it
+	size ssa.Value // its length when the step allocates it (make in place: the make's length; an allocating read helper: the argument); nil: see buf
+}
+
+// allocatingReader: g(conn, n, …) ([]byte, error) allocates make([]byte, n) for its parameter n, fills it
+// completely with io.ReadFull and returns that very buffer exactly when ReadFull succeeded.  Returns the
+// index of n.
+func allocatingReader(g *ssa.Function) (int, bool) {
+	if g == nil || g.Blocks == nil || g.Signature.Results().Len() != 2 {
+		return 0, false
+	}
+	var rf *ssa.Call
+	n := 0
+	for _, in := range instrsOf(g) {
+		if c, ok := in.(*ssa.Call); ok && isCallTo(&c.Call, "io", "ReadFull") {
+			rf = c
+			n++
+		}
+	}
+	if n != 1 {
+		return 0, false
+	}
+	noParamLook++
+	defer func() { noParamLook-- }()
+	ms, ok := strip(rf.Call.Args[1]).(*ssa.MakeSlice)
+	if !ok {
+		return 0, false
+	}
+	lv := strip(ms.Len)
+	if cv, isC := lv.(*ssa.Convert); isC {
+		lv = strip(cv.X)
+	}
+	p, ok := lv.(*ssa.Parameter)
+	if !ok || p.Parent() != g {
+		return 0, false
+	}
+	var errv ssa.Value
+	if rf.Referrers() != nil {
+		for _, r := range *rf.Referrers() {
+			if e, isE := r.(*ssa.Extract); isE && e.Index == 1 {
+				errv = e
+			}
+		}
+	}
+	if errv == nil {
+		return 0, false
+	}
+	succ := 0
+	for _, in := range instrsOf(g) {
+		r, isR := in.(*ssa.Return)
+		if !isR {
+			continue
+		}
+		if !isNilConst(retResult(r, 1)) {
+			continue // a failure return
+		}
+		succ++
+		if strip(retResult(r, 0)) != ssa.Value(ms) || !instrDominates(rf, r) {
+			return 0, false
+		}
+		if !hasFact(FactsAt(r), func(f Fact) bool { return f.Op == token.EQL && isNilConst(f.Y) && errValueOf(f.X) == errv }) {
+			return 0, false
+		}
+	}
+	return paramIndex(p), succ > 0
 }
 
 // readFullCalls returns the complete-read steps of fn and of its transparent helpers.
@@ -32,12 +96,33 @@ func readFullCalls(fn *ssa.Function) []*readCall {
 			continue
 		}
 		if isCallTo(&c.Call, "io", "ReadFull") {
-			out = append(out, &readCall{c, c.Call.Args[1]})
+			rc := &readCall{Call: c, buf: c.Call.Args[1]}
+			if ms, ok := strip(c.Call.Args[1]).(*ssa.MakeSlice); ok {
+				rc.size = ms.Len
+			}
+			out = append(out, rc)
 			continue
 		}
 		if g := c.Call.StaticCallee(); g != nil && g.Blocks != nil && isHelperCall(in) == nil && ownPkgPath(pkgPathOf(g)) {
 			if idx, ok := forwardsTo(g, "io", "ReadFull"); ok && len(idx) == 2 && idx[1] >= 0 && idx[1] < len(c.Call.Args) {
-				out = append(out, &readCall{c, c.Call.Args[idx[1]]})
+				rc := &readCall{Call: c, buf: c.Call.Args[idx[1]]}
+				if ms, ok := strip(c.Call.Args[idx[1]]).(*ssa.MakeSlice); ok {
+					rc.size = ms.Len
+				}
+				out = append(out, rc)
+				continue
+			}
+			// a "read exactly n bytes" helper that allocates the buffer itself: the step fills its result
+			if ni, ok := allocatingReader(g); ok && ni < len(c.Call.Args) {
+				var res ssa.Value = c
+				if c.Referrers() != nil {
+					for _, r := range *c.Referrers() {
+						if e, isE := r.(*ssa.Extract); isE && e.Index == 0 {
+							res = e
+						}
+					}
+				}
+				out = append(out, &readCall{Call: c, buf: res, size: c.Call.Args[ni]})
 			}
 		}
 	}
@@ -169,8 +254,17 @@ func checkC17(c *Ctx) {
 	}
 	// order by dominance: prefix dominates both others
 	var prefix, topicRd, payloadRd *readCall
+	sizeOf := func(r *readCall) int64 {
+		if r.size != nil {
+			if k, ok := constInt(r.size); ok {
+				return k
+			}
+			return -1
+		}
+		return bufConstLen(r.buf)
+	}
 	for _, r := range rf {
-		n := bufConstLen(r.buf)
+		n := sizeOf(r)
 		switch {
 		case n == 32:
 			topicRd = r
@@ -184,26 +278,53 @@ func checkC17(c *Ctx) {
 		c.Unk(B1, FuncName(readMsg), "three reads (prefix, topic, payload)", m.Pos(readMsg.Pos()), "cannot tell prefix/topic/payload reads apart by their buffer sizes")
 		return
 	}
-	prefixLen := bufConstLen(prefix.buf)
+	prefixLen := sizeOf(prefix)
 	okOrder := instrDominates(prefix, topicRd) && instrDominates(prefix, payloadRd) && !blockReaches(payloadRd.Block(), topicRd.Block(), nil)
 	c.Check(okOrder, B1, FuncName(readMsg), "read order prefix → topic → payload", m.Pos(prefix.Pos()), "dominance order", "the reader does not consume prefix, topic, payload in this order")
 	prefixBuf := bufferRoot(prefix.buf)
 	// type
 	var typeLanes, lenLanes []lane
 	var lenVal ssa.Value
+	// what readMsg returns on success: (type, topic, payload, nil), or one frame struct holding them and nil
+	var readType ssa.Value // the message type value the reader hands out
 	for _, in := range instrsOf(readMsg) {
 		if r, ok := in.(*ssa.Return); ok {
 			res := retResults(r)
-			if k, isK := res[3].(*ssa.Const); isK && k.Value == nil {
-				typeLanes = lanesOf(res[0], 0)
-				// payload returned is the buffer of the payload read
-				c.Check(strip(res[2]) == strip(payloadRd.buf), B1, FuncName(readMsg), "returned payload is the payload read", m.Pos(r.Pos()), "same buffer", "the data returned is not the payload buffer that was filled")
+			if len(res) < 2 {
+				continue
 			}
+			if k, isK := res[len(res)-1].(*ssa.Const); !isK || k.Value != nil {
+				continue
+			}
+			var tv, pv ssa.Value
+			if len(res) == 4 {
+				tv, pv = res[0], res[2]
+			} else if st, isS := res[0].Type().Underlying().(*types.Struct); isS {
+				for i := 0; i < st.NumFields(); i++ {
+					f := st.Field(i)
+					fv := structFieldValue(res[0], f, 0)
+					if fv == nil {
+						continue
+					}
+					if widthLanes(f.Type()) == 1 && namedOf(f.Type()) != nil {
+						tv = fv
+					}
+					if isByteSlice(f.Type()) && (strip(fv) == strip(payloadRd.buf) || resultOf(fv) == strip(payloadRd.buf)) {
+						pv = fv
+					}
+				}
+			}
+			if tv != nil {
+				readType = tv
+				typeLanes = lanesOf(tv, 0)
+			}
+			// payload returned is the buffer of the payload read
+			c.Check(pv != nil && (strip(pv) == strip(payloadRd.buf) || resultOf(pv) == strip(payloadRd.buf)), B1, FuncName(readMsg), "returned payload is the payload read", m.Pos(r.Pos()), "same buffer", "the data returned is not the payload buffer that was filled")
 		}
 	}
-	if ms, ok := strip(payloadRd.buf).(*ssa.MakeSlice); ok {
-		lenVal = ms.Len
-		lenLanes = lanesOf(ms.Len, 0)
+	if payloadRd.size != nil {
+		lenVal = payloadRd.size
+		lenLanes = lanesOf(payloadRd.size, 0)
 	}
 	okType := len(typeLanes) == 1 && typeLanes[0].Kind == laneByte && typeLanes[0].Buf == prefixBuf && typeLanes[0].Pos.String() == "0"
 	// writer side
@@ -346,8 +467,11 @@ func checkC17(c *Ctx) {
 	// handshake length prefix
 	hw := encoderWrites(hsWrite)
 	var hl []lane
-	for _, in := range instrsOf(hsRead) {
+	for _, in := range instrsDeep(hsRead) {
 		if ms, ok := in.(*ssa.MakeSlice); ok {
+			if _, isK := constInt(ms.Len); isK {
+				continue // the fixed-size buffer of the prefix itself
+			}
 			hl = lanesOf(ms.Len, 0)
 		}
 	}
@@ -373,41 +497,94 @@ func checkC17(c *Ctx) {
 	if np := m.Pkg(PkgNet); np != nil {
 		table := map[int64]bool{}
 		okTab := false
-		for _, f := range np.Syntax {
-			for _, d := range f.Decls {
-				gd, isG := d.(*ast.GenDecl)
-				if !isG || gd.Tok != token.VAR {
-					continue
+		// the table: the package-level map from message type to bool that the reader consults (by its
+		// recorded name, else by that role), as package initialisation leaves it (a literal, or filled by init)
+		tabName := "shouldHaveTopic"
+		sp := m.SSAPkg(PkgNet)
+		if sp != nil {
+			if _, has := sp.Members[tabName].(*ssa.Global); !has {
+				var cands []string
+				for _, in := range instrsDeep(readMsg) {
+					lk, ok := in.(*ssa.Lookup)
+					if !ok {
+						continue
+					}
+					u, ok := lk.X.(*ssa.UnOp)
+					if !ok || u.Op != token.MUL {
+						continue
+					}
+					g, ok := u.X.(*ssa.Global)
+					if !ok || g.Pkg != sp {
+						continue
+					}
+					mt, ok := g.Type().(*types.Pointer).Elem().Underlying().(*types.Map)
+					if !ok {
+						continue
+					}
+					if b, isB := mt.Elem().Underlying().(*types.Basic); !isB || b.Kind() != types.Bool {
+						continue
+					}
+					if intWidth(mt.Key()) == 0 {
+						continue
+					}
+					dup := false
+					for _, e := range cands {
+						dup = dup || e == g.Name()
+					}
+					if !dup {
+						cands = append(cands, g.Name())
+					}
 				}
-				for _, sp := range gd.Specs {
-					vs := sp.(*ast.ValueSpec)
-					for i, n := range vs.Names {
-						if n.Name != "shouldHaveTopic" || i >= len(vs.Values) {
+				if len(cands) == 1 {
+					tabName = cands[0]
+					c.Note("anchor: the topic table of package net found by role (the map from message type to bool that readMsg consults): %s", tabName)
+				}
+			}
+			if ev, err := evalPackageInit(sp); err == nil {
+				if im, ok := ev.mapOf(sp, tabName); ok {
+					okTab = true
+					for _, ks := range im.keys {
+						kv, isK := im.m[ks].(constant.Value)
+						k, err2 := strconv.ParseInt(ks, 10, 64)
+						if !isK || kv.Kind() != constant.Bool || err2 != nil {
+							okTab = false
 							continue
 						}
-						if cl, isCL := vs.Values[i].(*ast.CompositeLit); isCL {
-							okTab = true
-							for _, e := range cl.Elts {
-								kv, isKV := e.(*ast.KeyValueExpr)
-								if !isKV {
-									okTab = false
-									continue
-								}
-								kt, vt := np.TypesInfo.Types[kv.Key], np.TypesInfo.Types[kv.Value]
-								if kt.Value == nil || vt.Value == nil {
-									okTab = false
-									continue
-								}
-								k, _ := constant.Int64Val(kt.Value)
-								table[k] = constant.BoolVal(vt.Value)
-							}
-						}
+						table[k] = constant.BoolVal(kv)
 					}
 				}
 			}
 		}
+		if !okTab && readType != nil {
+			// no table: the reader decides by code (a switch in a `hasTopic()` method, a comparison): read the
+			// decision by evaluating the guards of the topic read for each 8-bit type value
+			tabName = "the reader's own test"
+			okTab = true
+			guards := GuardsLocal(topicRd.Call)
+			nDep := 0
+			for k := int64(0); k < 256 && okTab; k++ {
+				bind := map[ssa.Value]constant.Value{readType: constant.MakeInt64(k), strip(readType): constant.MakeInt64(k)}
+				reads := true
+				dep := 0
+				for _, g := range guards {
+					cv, ok := evalUnder(g.If.Cond, bind, 0)
+					if !ok || cv.Kind() != constant.Bool {
+						continue // a test that does not depend on the type (an error check)
+					}
+					dep++
+					if constant.BoolVal(cv) != g.Arm {
+						reads = false
+					}
+				}
+				if dep == 0 {
+					okTab = false
+				}
+				nDep += dep
+				table[k] = reads
+			}
+		}
 		if !okTab {
-			c.Unk(T1, "net", "shouldHaveTopic", "-", "the table is not a map literal with constant entries")
+			c.Unk(T1, "net", "shouldHaveTopic", "-", "the table is not a package-level map with constant entries after package initialisation, and the reader's test for a topic cannot be evaluated per message type")
 		} else if t := buildThresholdModel(c); t != nil {
 			sent := map[int64]bool{}
 			for _, ci := range callsOfFuncField(t.fns, t.fSend) {
@@ -432,7 +609,11 @@ func checkC17(c *Ctx) {
 
 	// ------------------------------------------------------------------ G1
 	if lenVal != nil {
-		ms := strip(payloadRd.buf).(*ssa.MakeSlice)
+		// the allocation happens at the make in place, or inside the allocating read helper: at the call
+		var ms ssa.Instruction = payloadRd.Call
+		if mk, isMk := strip(payloadRd.buf).(*ssa.MakeSlice); isMk {
+			ms = mk
+		}
 		ok := hasFact(FactsAt(ms), func(f Fact) bool {
 			if f.Op != token.LEQ && f.Op != token.LSS {
 				return false
@@ -480,9 +661,9 @@ func checkC17(c *Ctx) {
 				case wrappers[cal] != nil:
 					c.Check(inSend[fn], W1, FuncName(fn), "call "+cal.Name(), m.Pos(in.Pos()), "from remoteParty.send", "the function that writes the connection is called outside remoteParty.send: frames of concurrent senders can interleave")
 				case (cal == send || cal == maybeConnect) && cal != sendMessages:
-					c.Check(fn == sendMessages || rootOfHelper(fn) == sendMessages, W1, FuncName(fn), "call "+cal.Name(), m.Pos(in.Pos()), "from the per-destination goroutine sendMessages", cal.Name()+" is called outside the single writer goroutine")
+					c.Check(inlinedInto(fn, sendMessages), W1, FuncName(fn), "call "+cal.Name(), m.Pos(in.Pos()), "from the per-destination goroutine sendMessages", cal.Name()+" is called outside the single writer goroutine")
 				case cal == hsWrite:
-					c.Check(fn == maybeConnect || rootOfHelper(fn) == maybeConnect, W1, FuncName(fn), "call Handshake.Write", m.Pos(in.Pos()), "from the dialling code of the writer goroutine", "a handshake is written outside the writer goroutine's dialling code")
+					c.Check(inlinedInto(fn, maybeConnect), W1, FuncName(fn), "call Handshake.Write", m.Pos(in.Pos()), "from the dialling code of the writer goroutine", "a handshake is written outside the writer goroutine's dialling code")
 				case cal == sendMessages:
 					_, isGo := in.(*ssa.Go)
 					inOnce := false
@@ -496,41 +677,22 @@ func checkC17(c *Ctx) {
 							}
 						}
 					}
-					if !inOnce && fn.Parent() == nil && fn.Object() != nil && !fn.Object().Exported() && fn.Signature.Recv() != nil && !implementsSomething(fn) {
-						// a named method that runs only as the argument of Once.Do on a Once of the same
-						// object (p.once.Do(p.spawn)): never called, every method value of it goes to Do
+					if mc := methodLiteral[rootOfHelper(fn)]; !inOnce && mc != nil && mc.Referrers() != nil {
+						// a method value standing for the literal: p.once.Do(p.spawn) — its only use is as the
+						// argument of Do on a Once of the very object the method is bound to
 						uses, all := 0, true
-						for _, g := range netFns {
-							for _, in2 := range instrsOf(g) {
-								if ci, isCI := in2.(ssa.CallInstruction); isCI && staticCallee(ci.Common()) == fn {
-									all = false
-								}
-								mc, isMC := in2.(*ssa.MakeClosure)
-								if !isMC {
-									continue
-								}
-								recv, mo, isB := boundMethod(mc)
-								if !isB || mo != fn.Object() {
-									continue
-								}
-								if mc.Referrers() == nil {
-									continue
-								}
-								for _, r := range *mc.Referrers() {
-									c2, isC := r.(*ssa.Call)
-									if !isC || !isCallTo(&c2.Call, "sync", "Once.Do") {
-										all = false
-										continue
-									}
-									// the Once is a field of the object the method is bound to
-									fa, isFA := c2.Call.Args[0].(*ssa.FieldAddr)
-									if !isFA || !(strip(fa.X) == strip(recv) || sameValue(fa.X, recv)) {
-										all = false
-										continue
-									}
-									uses++
-								}
+						for _, r := range *mc.Referrers() {
+							c2, isC := r.(*ssa.Call)
+							if !isC || !isCallTo(&c2.Call, "sync", "Once.Do") || len(mc.Bindings) != 1 {
+								all = false
+								continue
 							}
+							fa, isFA := c2.Call.Args[0].(*ssa.FieldAddr)
+							if !isFA || !(strip(fa.X) == strip(mc.Bindings[0]) || sameValue(fa.X, mc.Bindings[0])) {
+								all = false
+								continue
+							}
+							uses++
 						}
 						inOnce = all && uses > 0
 					}
